@@ -64,8 +64,17 @@ def run_part(ctx):
     # XalanDeque copied into a container of ANOTHER memory manager: nothing may be allocated on the source's manager
     copies = [(n, bs) for n in (0, 1, 9, 10, 11, 35, 100) for bs in (1, 3, 10)]
     lines += ["k%d copy %d %d" % (i, n, bs) for i, (n, bs) in enumerate(copies)]
+    # XalanArrayAllocator::clear() "releases all allocated memory": nothing outstanding after clear(), reuse and destruction
+    arrs = [(bs, cs) for bs in (1, 4, 10) for cs in ([1], [3, 3, 3], [10, 1, 12], [4, 4, 4, 4, 4, 25])]
+    lines += ["r%d arr %d %s" % (i, bs, " ".join(map(str, cs))) for i, (bs, cs) in enumerate(arrs)]
     rc, res, raw = core.run_lines_parallel(exe, lines, sep=" ")
     bad = []
+    for i, (bs, cs) in enumerate(arrs):
+        ctx.cov["evaluations"] += 1
+        got = res.get("r%d" % i)
+        if got != "r0":
+            bad.append((0, "# XalanArrayAllocator<long>(block size %d): allocate %s, clear(), allocate(3), destroy: %s blocks of the manager outstanding, specified r0\nr%d arr %d %s" % (
+                bs, cs, got, i, bs, " ".join(map(str, cs)))))
     for i, (n, bs) in enumerate(copies):
         ctx.cov["evaluations"] += 1
         got = res.get("k%d" % i)
